@@ -174,10 +174,6 @@ def check(ctx):
                     b.get('ref', {}).get('n') == 'engine::Search::_search_depth' and n['op'] in ('>=', '=='):
                 tests.append(n)
     ok = False
-    for t in tests:
-        if any(a['k'] == 'VarDecl' for a in it.ancestors(t)):
-            raise AnalysisBroken('C09: the test of the iteration counter against the depth limit at %s is stored in a variable before it '
-                                 'is acted on; the rule follows branch edges of the test itself' % it.loc(t))
     if tests and outer is not None:
         from props.C06 import _cycle_avoiding
         ok = _cycle_avoiding(c, outer[1], outer[0], outer[2], set(t['i'] for t in tests)) is None
@@ -186,6 +182,11 @@ def check(ctx):
             pos = c.position(t)
             succ = dict(c.succ[pos[0]])
             ok = ok and (0 in succ) and (succ[0] not in outer[2] or _leads_out(c, succ[0], outer[2]))
+    if not ok:
+        for t in tests:
+            if any(a['k'] == 'VarDecl' for a in it.ancestors(t)):
+                raise AnalysisBroken('C09: the test of the iteration counter against the depth limit at %s is stored in a variable before '
+                                     'it is acted on, in a way the branch-edge rule cannot follow' % it.loc(t))
     ctx.ob('C09.R2.limit-test-every-cycle', 'iter_search', ok,
            'every cycle of the deepening loop passes the test _current_depth >= _search_depth, whose true edge leaves the loop',
            site=it.loc(tests[0]) if tests else it.loc())
